@@ -14,6 +14,8 @@ pub enum Op {
     Write(Vec<u8>),
     /// std's `write_all` loop, spelled out as individual `write` calls
     WriteAll(Vec<u8>),
+    /// the writer's own `write_all` (std's default unless overridden): one call
+    WriteAllReal(Vec<u8>),
     /// one `write_vectored` call with these slices (`BodyWriter` has std's default: a `write`
     /// of the first non-empty slice, which is what the model is told)
     WriteV(Vec<Vec<u8>>),
@@ -168,6 +170,36 @@ impl Session {
         self.write_impl(&first, Some(slices))
     }
 
+    /// The writer's `write_all`, as one call. Recorded as `L<bytes>` for a raw writer (the model
+    /// runs std's loop over its own `write`), as a gzip write accepting everything otherwise.
+    fn write_all_real(&mut self, bs: &[u8]) -> Obs {
+        let mark = self.mark();
+        let r = {
+            let w = self.w.as_mut().unwrap();
+            std::panic::catch_unwind(std::panic::AssertUnwindSafe(|| w.write_all(bs)))
+        };
+        let obs = match r {
+            Err(_) => {
+                self.panicked = true;
+                Obs::Panic
+            }
+            Ok(Ok(())) => Obs::Wrote(bs.len()),
+            Ok(Err(_)) => Obs::Err,
+        };
+        // (`write_all` of nothing never calls `write`: `L` with no bytes, whatever the writer)
+        let tok = if self.level > 0 && !bs.is_empty() {
+            let (pushed, _) = self.ref_pushed(|r| {
+                r.write_all(bs).unwrap();
+                bs.len()
+            });
+            format!("GW{}:{}", hex(&pushed), bs.len())
+        } else {
+            format!("L{}", hex(bs))
+        };
+        self.record(tok, obs.clone(), mark, bs.to_vec());
+        obs
+    }
+
     fn write_impl(&mut self, bs: &[u8], vectored: Option<&[Vec<u8>]>) -> Obs {
         let mark = self.mark();
         let r = {
@@ -215,6 +247,7 @@ impl Session {
             let short = |o: &Op| match o {
                 Op::Write(b) => format!("write({} bytes)", b.len()),
                 Op::WriteV(v) => format!("write_vectored({:?} bytes)", v.iter().map(|s| s.len()).collect::<Vec<_>>()),
+                Op::WriteAllReal(b) => format!("write_all({} bytes, one call)", b.len()),
                 Op::WriteAll(b) => format!("write_all({} bytes)", b.len()),
                 o => format!("{:?}", o),
             };
@@ -231,6 +264,11 @@ impl Session {
             Op::WriteV(slices) => {
                 if self.w.is_some() {
                     self.write_vectored_once(slices);
+                }
+            }
+            Op::WriteAllReal(bs) => {
+                if self.w.is_some() {
+                    self.write_all_real(bs);
                 }
             }
             Op::WriteAll(bs) => {
@@ -453,7 +491,7 @@ pub fn pred_c08(s: &Session) -> String {
                 accepted.extend_from_slice(&st.input[..*n]);
                 buffered = (buffered + n) % s.cap;
             }
-            Obs::Err if st.tok.starts_with('W') || st.tok.starts_with('V') || st.tok == "F" => {
+            Obs::Err if st.tok.starts_with('W') || st.tok.starts_with('V') || st.tok.starts_with('L') || st.tok == "F" => {
                 return format!("FAIL:{} failed on a live body at step {}", st.tok, i);
             }
             Obs::Ok => {
@@ -540,8 +578,10 @@ pub fn pred_c11(s: &Session) -> String {
         // was the writer still live (not Dead from an earlier error) at the abort?
         let live = !s.steps[..a].iter().any(|st| st.obs == Obs::Err);
         for st in &s.steps[a + 1..] {
-            let is_w = st.tok.starts_with('W') || st.tok.starts_with('V') || st.tok.starts_with("GW");
+            let is_w = st.tok.starts_with('W') || st.tok.starts_with('V') || st.tok.starts_with('L') || st.tok.starts_with("GW");
             let is_f = st.tok == "F" || st.tok.starts_with("GF");
+            // (`write_all` of nothing makes no call into the writer)
+            let is_w = is_w && st.tok != "L";
             if (is_w || is_f) && st.obs != Obs::Err {
                 return format!("FAIL:{} succeeded after abort", st.tok);
             }
@@ -585,7 +625,8 @@ pub fn pred_c11(s: &Session) -> String {
             if Some(i) == writer_drop_at {
                 break;
             }
-            let is_w = st.tok.starts_with('W') || st.tok.starts_with('V');
+            // (`L` alone: `write_all` of nothing, which makes no call into the writer)
+            let is_w = (st.tok.starts_with('W') || st.tok.starts_with('V') || st.tok.starts_with('L')) && st.tok != "L";
             let is_f = st.tok == "F";
             let is_gw = st.tok.starts_with("GW");
             let is_gf = st.tok.starts_with("GF");
@@ -711,7 +752,8 @@ pub fn random_history(rng: &mut Rng, cap: usize, len: usize, with_abort: bool, w
                 let k = 1 + rng.usize(3);
                 Op::WriteV((0..k).map(|_| { let sz = (*rng.pick(&sizes)).min(300_000); payload(rng, sz, kind) }).collect())
             }
-            5 | 6 => Op::WriteAll(payload(rng, sz, kind)),
+            5 => Op::WriteAll(payload(rng, sz, kind)),
+            6 => Op::WriteAllReal(payload(rng, sz, kind)),
             7 | 8 => Op::Flush,
             9 | 10 => Op::PollUntilPending(1 + rng.below(2)),
             11 => Op::Poll(1 + rng.below(3)),
@@ -751,6 +793,7 @@ fn alphabet(cap: usize) -> Vec<Op> {
         Op::Write(b(cap)),
         Op::Write(b(cap + 1)),
         Op::WriteAll(b(3 * cap)),
+        Op::WriteAllReal(b(2 * cap + 1)),
         Op::Flush,
         Op::PollUntilPending(1),
         Op::DropWriter,
@@ -837,7 +880,8 @@ pub fn c09(em: &mut Emit, thorough: bool, seed: u64) {
             let sz = *rng.pick(&sizes);
             let sz = if cap < 8 { sz.min(1000) } else { sz };
             ops.push(match rng.below(8) {
-                0..=2 => Op::WriteAll(payload(&mut rng, sz, kind)),
+                0 | 1 => Op::WriteAll(payload(&mut rng, sz, kind)),
+                2 => Op::WriteAllReal(payload(&mut rng, sz, kind)),
                 3 => {
                     let k = 2 + rng.usize(2);
                     Op::WriteV((0..k).map(|_| { let sz = *rng.pick(&sizes); let sz = if cap < 8 { sz.min(1000) } else { sz }; payload(&mut rng, sz, kind) }).collect())
@@ -914,8 +958,65 @@ pub fn c09(em: &mut Emit, thorough: bool, seed: u64) {
     }
 }
 
+/// Free-running threads (no controlled scheduler, so the drop can land while the writer is INSIDE
+/// a critical section): a producer completes a chunk with every write while the response body is
+/// dropped at a varying moment; from then on the producer must be told within a bounded number of
+/// operations. Returns the first trial that went wrong.
+fn drop_race(gz: bool, trials: usize) -> Result<(), String> {
+    for t in 0..trials {
+        let mut b = http::Request::get("/");
+        if gz {
+            b = b.header("accept-encoding", "gzip");
+        }
+        let req = b.body(()).unwrap();
+        let (resp, w) = http_serve::streaming_body(&req).with_chunk_size(1).with_gzip_level(1).build::<Bytes, BoxError>();
+        let mut w = w.unwrap();
+        let dropped = Arc::new(std::sync::atomic::AtomicBool::new(false));
+        let d2 = dropped.clone();
+        let h = std::thread::spawn(move || -> Result<(), String> {
+            let mut after = 0usize;
+            let mut x = 0u8;
+            loop {
+                let gone = d2.load(std::sync::atomic::Ordering::SeqCst);
+                x = x.wrapping_mul(31).wrapping_add(7);
+                let r = w.write_all(&[x, x ^ 0x5a, x.wrapping_add(1)]).and_then(|_| w.flush());
+                if r.is_err() {
+                    return Ok(());
+                }
+                if gone {
+                    after += 1;
+                    if after > 3000 {
+                        return Err(format!("3000 write+flush calls succeeded after the body was dropped (gzip={})", gz));
+                    }
+                }
+            }
+        });
+        // let the producer get going, then drop at a moment that varies with the trial
+        for _ in 0..(t % 7) * 50 {
+            std::hint::spin_loop();
+        }
+        drop(resp);
+        dropped.store(true, std::sync::atomic::Ordering::SeqCst);
+        match h.join() {
+            Ok(Ok(())) => {}
+            Ok(Err(e)) => return Err(format!("trial {}: {}", t, e)),
+            Err(_) => return Err(format!("trial {}: producer panicked", t)),
+        }
+    }
+    Ok(())
+}
+
 pub fn c11(em: &mut Emit, thorough: bool, seed: u64) {
     let mut rng = Rng::new(seed ^ 0xC11);
+    for gz in [false, true] {
+        let trials = if thorough { 3000 } else { 400 };
+        let r = drop_race(gz, trials);
+        em.pred_only(
+            &format!("{} trials: the body is dropped while a free-running producer thread completes chunks (gzip={})", trials, gz),
+            &match r { Ok(()) => "ok".to_string(), Err(e) => format!("FAIL:{}", e) },
+            "drop-race",
+        );
+    }
     // corpus: F8 — drop the body, then keep writing and flushing
     {
         let mut ops = vec![Op::DropBody];
